@@ -30,6 +30,7 @@ import (
 	"fmt"
 	"os"
 	"path/filepath"
+	"runtime"
 	"sort"
 	"strings"
 	"syscall"
@@ -96,14 +97,14 @@ func (v killedVFS) OpenWriter(dir, name string) (types.WritableFile, error) {
 
 type runner struct {
 	killed bool // the next Open runs on killedVFS
-	dir   string
-	sc    scenario
-	w     *wal.WAL
-	pool  *valpool.Pool
-	seen  map[string]bool
-	calls map[string]int
-	errs  map[string]int
-	notes []string
+	dir    string
+	sc     scenario
+	w      *wal.WAL
+	pool   *valpool.Pool
+	seen   map[string]bool
+	calls  map[string]int
+	errs   map[string]int
+	notes  []string
 }
 
 var ncall int
@@ -381,11 +382,15 @@ func runConc(dir string, iters int) {
 }
 
 func main() {
+	lock := flag.Bool("lock", false, "keep the driver on the process's main thread (system-call fault injection by strace counts per thread)")
 	conc := flag.Int("conc", 0, "run the concurrent fs.FS workload with this many iterations per goroutine instead of scenarios")
 	scenPath := flag.String("scen", "", "ndjson file of scenarios")
 	dir := flag.String("dir", "", "scratch directory (one sub directory per scenario)")
 	summary := flag.String("summary", "", "summary output (json)")
 	flag.Parse()
+	if *lock {
+		runtime.LockOSThread()
+	}
 	if *conc > 0 {
 		dirFlag := flag.Lookup("dir")
 		runConc(dirFlag.Value.String(), *conc)
